@@ -493,6 +493,14 @@ def run_property(prop, modname, tier, seed):
     mod = __import__(modname, fromlist=["x"])
     findings = load_known_findings()
     tasks = mod.tasks(tier)
+    smoke = float(os.environ.get("VERIF_SMOKE", "0") or 0)
+    if smoke:
+        # development aid, not a registered tier: every task of the tier at a fraction of its case count, to
+        # exercise the thorough-only code paths end to end in minutes (REQUIRED_LABELS are not meaningful then)
+        for t in tasks:
+            for k in ("n", "nb", "na", "nn", "histories", "runs"):
+                if isinstance(t.kwargs.get(k), int):
+                    t.kwargs[k] = max(1, int(t.kwargs[k] * smoke))
     jobs = [(prop, modname, t.name, t.fn, t.kwargs, tier, seed) for t in tasks]
 
     results = []
@@ -640,7 +648,8 @@ def finish(prop, mod, tier, seed, results, findings, wall):
     # sanity of the generators themselves: required label classes must be populated
     missing = [l for l in getattr(mod, "REQUIRED_LABELS", {}).get(tier, [])
                if labels.get(l, 0) == 0]
-    if missing and not harness_errors and not buckets and not labels.get("tasks_cut_short_by_the_stall_guard"):
+    if missing and not harness_errors and not buckets and not labels.get("tasks_cut_short_by_the_stall_guard") \
+            and not os.environ.get("VERIF_SMOKE"):
         print(f"HARNESS-ERROR property={prop} generator never produced: {missing}",
               file=sys.stderr)
         return 2
